@@ -149,7 +149,13 @@ def run_cases(mod, ctx, driver_ok):
                 t = gen.target(real) if gen.ok else None
                 if t is not None and t[0].split(".")[0] in amp:
                     m0 = real[1][0]
-                    for _k in range(12):
+                    # budget: a dozen neighbours per call at first, fewer once the run has spent its amplification budget
+                    # (a harmless refactoring that opens a tie must not turn a quick check into a half-hour run)
+                    cap = 1500000 if ctx.thorough else 400000
+                    used = st.get("amplified", 0)
+                    kk = 12 if used < cap // 2 else (3 if used < cap else (1 if ctx.rng.random() < 0.05 else 0))
+                    st["amplified"] = used + kk
+                    for _k in range(kk):
                         m1 = adapters.neighbour(ctx.rng, m0)
                         if ctx.rng.random() < 0.4:
                             m1 = adapters.neighbour(ctx.rng, m1)
@@ -414,6 +420,7 @@ def check(prop, tier, seed, t0, no_build=False):
             known_findings_seen=sorted(known_hits.keys()), broken_obligations=broken, escalated=ctx.escalate,
             purity_replays=st["purity_replays"],
             amplified_cases_on_float_rounding_boundary=st.get("amplified_float_boundary", 0),
+            amplified_neighbour_cases=st.get("amplified", 0),
             generated_model=dict(
                 translator="harness/py2lean.py (regenerated from the working tree on this run: %s)" % ctx.tie.get("regenerated"),
                 translator_summary=ctx.tie.get("translator"),
